@@ -138,6 +138,17 @@ func (i *interpreter) slice(instr *ssa.Slice, x, lo, hi, max value) value {
 		Cap = cap(a)
 	}
 
+	// string[lo:hi] with symbolic bounds but a provably constant length: build the bytes as
+	// ite-chains instead of forking on the offset (strings are immutable, so no aliasing issue)
+	if isStr(x) && max == nil {
+		_, los := lo.(*smt.Term)
+		_, his := hi.(*smt.Term)
+		if los || (his && lo != nil) {
+			if r, ok := i.symSubstring(x, lo, hi); ok {
+				return r
+			}
+		}
+	}
 	l := int64(0)
 	if lo != nil {
 		l = i.asIndex(lo, instr.Low.Type())
@@ -731,4 +742,47 @@ func (i *interpreter) iteV(t types.Type, c, a, b value) value {
 		return normBool(r)
 	}
 	return norm(t, r)
+}
+
+// symSubstring handles s[lo:hi] where hi-lo is the same constant for every feasible value.
+func (i *interpreter) symSubstring(x, lo, hi value) (value, bool) {
+	c := i.ctx
+	n := strLen(x)
+	if n > symPtrMax {
+		return nil, false
+	}
+	lt := c.Resize(i.toTerm(lo), 64, true)
+	var ht *smt.Term
+	if hi == nil {
+		ht = c.BV(uint64(n), 64)
+	} else {
+		ht = c.Resize(i.toTerm(hi), 64, true)
+	}
+	lenT := c.Bin(smt.OBvSub, ht, lt)
+	var L uint64
+	if lenT.IsConst() {
+		L = lenT.Val
+	} else {
+		i.ensureModel()
+		L = i.evalModel(lenT)
+		res, _ := i.solver.Check(c.Ne(lenT, c.BV(L, 64)), false, nil)
+		if res != smt.Unsat {
+			return nil, false
+		}
+	}
+	if L > uint64(n) {
+		return nil, false
+	}
+	// bounds: 0 <= lo && lo+L <= n
+	inb := c.Bin(smt.OBvUle, lt, c.BV(uint64(n)-L, 64))
+	if !i.truth(normBool(inb)) {
+		panic(targetPanic{i.runtimeErr(fmt.Sprintf("slice bounds out of range [symbolic:+%d] with length %d", L, n))})
+	}
+	bs := strBytes(x)
+	out := make([]value, L)
+	for k := uint64(0); k < L; k++ {
+		idx := c.Bin(smt.OBvAdd, lt, c.BV(k, 64))
+		out[k] = i.symLoad(&symPtr{elems: bs, idx: idx}, types.Typ[types.Uint8])
+	}
+	return mkstr(out), true
 }
